@@ -33,6 +33,7 @@ PROPS = {
         assumptions=["reference model = sorted []uint64 in harness/pkg/roaring/gen_test.go",
                      "arrays are generated with <= 4096 values (the largest the code itself creates); Flip range length <= 70000 (cost bound)",
                      "CountRange/SliceRange are only called with start <= end (documented precondition)"],
+        tags=["groar"],
         units=[
             U("reads", "./roaring", "^TestVerifC01_Reads$", 2400, 120000),
             U("ops", "./roaring", "^TestVerifC01_Ops$", 1600, 80000),
@@ -41,3 +42,11 @@ PROPS = {
         ],
     ),
 }
+
+
+# per-property configuration files: harness/props.d/Cxx.py each define PROP = dict(...) (same keys as above)
+import glob as _glob, os as _os
+for _f in sorted(_glob.glob(_os.path.join(_os.path.dirname(_os.path.abspath(__file__)), "props.d", "C*.py"))):
+    _ns = {"U": U}
+    exec(compile(open(_f).read(), _f, "exec"), _ns)
+    PROPS[_os.path.basename(_f)[:-3]] = _ns["PROP"]
